@@ -1053,7 +1053,7 @@ def _run(chk, rng, thorough, ok, C, R, tmp):
     chk.case("help-renameFrame", True)
 
     # ---- input files ----
-    n_inputs = 4 if not thorough else 60
+    n_inputs = 4 if not thorough else 100
     inputs = []
     for idx in range(n_inputs):
         db0 = gen_input(rng, C, idx, big=thorough and idx % 3 == 0)
@@ -1181,7 +1181,7 @@ def _run(chk, rng, thorough, ok, C, R, tmp):
             tie_direct(in_db, opts, res["fn"], dict(input=inp["idx"], options=opts))
 
     # ---- ordered pairs ----
-    n_pair_inputs = 2 if not thorough else 20
+    n_pair_inputs = 2 if not thorough else 36
     for inp in inputs[:n_pair_inputs]:
         in_db = R.load(inp["path"])
         args = pair_args(rng, inp["st"], inp["other_path"], thorough)
